@@ -677,7 +677,6 @@ theorem inter_snoc_glue : ∀ (I : List Str) (l e : Str), inter (I ++ [l]) ++ e 
     simp only [List.cons_append] at this ⊢
     simp only [inter, List.append_assoc, List.cons_append]
     rw [← this]
-    simp [List.append_assoc]
 
 theorem inter_inj' (q1 q2 : List Str) (h1 : ∀ c ∈ q1, NoSlash c) (h2 : ∀ c ∈ q2, NoSlash c) (n1 : q1 ≠ []) (n2 : q2 ≠ [])
     (h : inter q1 = inter q2) : q1 = q2 := by
@@ -697,7 +696,7 @@ theorem underOrEq_abs (Q W : List Str) (e : Str) (he : GoodExt e)
     (h : underOrEq ('/' :: inter Q) ('/' :: inter W ++ e) = true) : Q <+: W := by
   obtain ⟨e', rfl, _, hes⟩ := he
   -- W = I ++ [l]
-  obtain ⟨I, l, rfl⟩ : ∃ I l, W = I ++ [l] := ⟨W.dropLast, W.getLast hWne, (List.dropLast_append_getLast hWne).symm⟩
+  obtain ⟨I, l, rfl⟩ : ∃ I l, W = I ++ [l] := ⟨W.dropLast, W.getLast hWne, (List.dropLast_concat_getLast hWne).symm⟩
   have hl : NoSlash l := hW l (by simp)
   have hle : NoSlash (l ++ '.' :: e') := by
     intro hm
